@@ -16,12 +16,14 @@ REQUIRE = ("c03", "r8_require", "C03.R8", "a requirement is met by state of any 
 SUGAR = ("c01", "r6_named_accessors", "C01.R6", "State's named accessors (populations_mut, random_mut, iterations, best_individual, ...) are the registry accessors of the named type")
 OWNKEYS = ("c16", "r8_state_keys", "C16.R8", "a component reads its run-time parameters and its evaluator / memories under its own instantiation and identifier")
 EQUALITY = ("c07", "r7_individual_equality", "C07.R7", "two individuals are equal iff solution and objective are equal")
+EVALSTEP = ("c06", "r1_population_evaluator", "C06.R1", "the evaluation step hands the whole top population to the evaluator held under the component's own identifier")
+FIREFLY = ("c06", "r7_firefly", "C06.R7", "the firefly update re-evaluates every moved firefly with the evaluator held under its own identifier")
 
 DEPS = {
     "C02": [REGISTRY, SUGAR],
     "C03": [REGISTRY, SCOPES, SUGAR],
     "C04": [SUGAR],
-    "C05": [SUGAR],
+    "C05": [SUGAR, OWNKEYS, EVALSTEP, FIREFLY],
     "C06": [REGISTRY, STACK, SUGAR, OWNKEYS],
     "C07": [REGISTRY, STACK, SUGAR, OWNKEYS],
     "C08": [REGISTRY, SUGAR],
@@ -78,17 +80,35 @@ def guards(ctx):
         ctx.ok(rule, "anchored files", "no-guard-conflict", "%d bodies in %s" % (bodies, list(files)))
 
 
+def anchored_files(prop):
+    """the property's anchored source files, templates included"""
+    import json
+    import os
+    path = os.path.join(os.path.dirname(os.path.dirname(os.path.abspath(__file__))), "properties.jsonl")
+    for line in open(path):
+        p = json.loads(line)
+        if p.get("id") == prop:
+            return tuple(x for x in p.get("anchors", {}).get("files", []) if x.startswith("src/"))
+    return ()
+
+
 def run(ctx):
     for i, (module, fname, old, why) in enumerate(DEPS.get(ctx.prop, []), 1):
         ctx.borrow("%s.D%d" % (ctx.prop, i), why, module, fname, old)
     if ctx.prop in GUARD_PROPS:
         ctx.guard(ctx.prop + ".K4", "no dynamic borrow conflict in the anchored code", lambda: guards(ctx))
+    files = anchored_files(ctx.prop)
+    if files:
+        ctx.guard(ctx.prop + ".K20", "no call in the anchored code exchanges two same-typed arguments", lambda: __import__("argnames").check_for(ctx, files))
 
 
 def explain(prop):
     ds = DEPS.get(prop, [])
     k4txt = (" (K4) no registry guard is still alive when the same state type is acquired again (directly or through a callee's summary) anywhere in this property's anchored files: such a path panics, or a write through a `try_` accessor / set_value is refused."
              if prop in GUARD_PROPS else "")
+    k4txt += (" (K20) no call of a crate function in this property's anchored files hands two same-typed parameters the caller's values "
+              "NAMED after each other (`f(b, a)` for `fn f(a, b)`): names of the caller's variables / struct fields and of the callee's parameters are read "
+              "from the type-checked program; only a complete two-way cross-over is reported.")
     if not ds:
         return k4txt
     return k4txt + (" Mechanisms of other properties this statement rests on are decided by running the owning property's rule body under this "
